@@ -1,20 +1,42 @@
 """C16 - optional/required scalars: null, range, ordering and SBE defaults (library layer: the 22 built-in types)."""
 from ..build import Unit
 from ..engine import Contract, OBJ, ASSUME
-from ..sbe import PRIMS, ORDER, bits, is_null
+from ..sbe import PRIMS, ORDER
+from ..sbe import bits as sbe_bits
 
 SERVES = {"C16"}
 TITLE = "Optional/required scalars: null, range, ordering and SBE defaults"
 
 
-def unit_contracts(u, tier, tag=""):
+def unit_contracts(u, tier, tag="", entries=None):
+    """entries: [(id used in root names, table entry {c,size,fp,min,max,null}, has required roots, has optional roots, primitive name)];
+    default: the 22 built-in types with the SBE table values"""
     cs = []
 
     def add(f, name, pre, post, assigns=()):
         cs.append(Contract(f, name + tag, prop="C16", pre=pre, post=post, assigns=list(assigns)))
 
-    for N in ORDER:
-        P = PRIMS[N]
+    if entries is None:
+        entries = [(N, PRIMS[N], True, True, N) for N in ORDER]
+    for N, P, has_req, has_opt, prim in entries:
+        mn, mx, nl = P["min"], P["max"], P["null"]
+
+        def bits(_n, expr, _prim=prim):
+            return sbe_bits(_prim, expr)
+
+        def is_null(_n, expr, _P=P):
+            if _P["null"] == "NAN":
+                return "((%s) != (%s))" % (expr, expr)
+            return "((%s) == %s)" % (expr, _P["null"])
+
+        if has_req:
+            cs += _required(u, N, P, bits, add)
+        if has_opt:
+            cs += _optional(u, N, P, bits, is_null, add)
+    return cs
+
+
+def _required(u, N, P, bits, add):
         mn, mx, nl = P["min"], P["max"], P["null"]
         # ---------------- required
         f = u.target("r_req_value_" + N)
@@ -42,6 +64,11 @@ def unit_contracts(u, tier, tag=""):
         add(f, N + "_t::min_value", [], [("SBE-default-min", "%s == %s" % (bits(N, "RET"), bits(N, "(%s)%s" % (P["c"], mn))))])
         f = u.target("r_req_max_" + N)
         add(f, N + "_t::max_value", [], [("SBE-default-max", "%s == %s" % (bits(N, "RET"), bits(N, "(%s)%s" % (P["c"], mx))))])
+        return []
+
+
+def _optional(u, N, P, bits, is_null, add):
+        mn, mx, nl = P["min"], P["max"], P["null"]
         # ---------------- optional
         f = u.target("r_opt_value_" + N)
         rec = f.params[0]["rec"]
@@ -93,11 +120,11 @@ def unit_contracts(u, tier, tag=""):
         f = u.target("r_opt_max_" + N)
         add(f, N + "_opt_t::max_value", [], [("SBE-default-max", "%s == %s" % (bits(N, "RET"), bits(N, "(%s)%s" % (P["c"], mx))))])
         f = u.target("r_opt_null_" + N)
-        if P["fp"]:
+        if P["null"] == "NAN":
             add(f, N + "_opt_t::null_value", [], [("SBE-default-null-is-NaN", "RET != RET")])
         else:
             add(f, N + "_opt_t::null_value", [], [("SBE-default-null", "%s == %s" % (bits(N, "RET"), bits(N, "(%s)%s" % (P["c"], nl))))])
-    return cs
+        return []
 
 
 def contracts(tier):
